@@ -38,6 +38,7 @@ def reach(obj, path='arg', out=None, seen=None, include_cache=True):
         reach(obj.domain, path + '.domain', out, seen)
     elif isinstance(obj, pf.CellVariable):
         out.append((path + '._value', np.asarray(obj._value)))
+        out.append((path + '.value.modified', np.asarray([bool(getattr(obj._value, 'modified', False))])))
         reach(obj.BCs, path + '.BCs', out, seen)
         if include_cache and hasattr(obj, '_BCsTerm'):
             reach(obj._BCsTerm, path + '._BCsTerm', out, seen)
@@ -50,6 +51,8 @@ def reach(obj, path='arg', out=None, seen=None, include_cache=True):
         for nm in ('_a', '_b', '_c'):
             out.append((path + '.' + nm, np.asarray(getattr(obj, nm))))
         out.append((path + '._periodic', np.asarray([bool(obj._periodic)])))
+        # hidden state: the dirty flags that the solvers trust (a pure builder must not reset or raise them)
+        out.append((path + '.modified_flags', np.asarray([bool(getattr(getattr(obj, nm), 'modified', False)) for nm in ('_a', '_b', '_c')])))
     elif isinstance(obj, (list, tuple)):
         for i, o in enumerate(obj):
             reach(o, '%s[%d]' % (path, i), out, seen)
@@ -68,6 +71,8 @@ def snapshot(objs, visible_only_for=()):
         if any(o is v for v in visible_only_for):
             snap['arg%d.value' % i] = digest(np.asarray(o.value))
             for p, a in reach(o.BCs, 'arg%d.BCs' % i):
+                if p.endswith('.modified_flags'):
+                    continue            # a solver may legitimately reset the dirty flags of the variable it is given
                 snap[p] = digest(a)
             continue
         for p, a in reach(o, 'arg%d' % i):
@@ -76,7 +81,11 @@ def snapshot(objs, visible_only_for=()):
 
 
 def diff_snap(a, b):
-    return sorted(k for k in a if a[k] != b.get(k))
+    """paths whose content changed, plus paths that appeared or disappeared (e.g. a caller's list that grew)"""
+    changed = [k for k in a if k in b and a[k] != b[k]]
+    changed += ['+' + k for k in b if k not in a]
+    changed += ['-' + k for k in a if k not in b]
+    return sorted(changed)
 
 
 def canon(obj):
